@@ -14,6 +14,8 @@ def run(tier, seed):
     # options of rules added one at a time (Blocker::add_filter histories, incl. a token-less rule with two $domain= values)
     from checks import enginecommon
     enginecommon.histories(v, wd, "blocker", 3 if tier == "quick" else 4)
+    # ... and to a blocker whose initial list has no $domain= rule at all
+    enginecommon.histories(v, wd, "blocker", 3 if tier == "quick" else 4, initset="notagblock")
     # the text side: option spellings -> rule AST (Options.tla)
     rep_o = netcommon.option_spellings(v, wd, 2 if tier == "quick" else 3)
     vlib.require(rep_o["nontrivial"] > 300, "option-spelling replay too small")
